@@ -16,11 +16,20 @@ import (
 // purposes of the oracles iff their Canon strings are equal.
 func Canon(v interface{}) string {
 	var b strings.Builder
+	canonDepth = 0
 	canon(&b, v)
 	return b.String()
 }
 
+var canonDepth int
+
 func canon(b *strings.Builder, v interface{}) {
+	canonDepth++
+	defer func() { canonDepth-- }()
+	if canonDepth > 300 {
+		b.WriteString("<deeper than 300 levels: cyclic?>")
+		return
+	}
 	switch x := v.(type) {
 	case nil:
 		b.WriteString("nil")
@@ -146,9 +155,16 @@ func (h Hash) Int(i int) Hash {
 func HashStr(s string) Hash { return fnvOff.Str(s) }
 
 // Digest is a fast structural hash (no string building) used at every yield.
-func Digest(v interface{}) Hash { return digest(fnvOff, v) }
+func Digest(v interface{}) Hash { digestDepth = 0; return digest(fnvOff, v) }
+
+var digestDepth int
 
 func digest(h Hash, v interface{}) Hash {
+	digestDepth++
+	defer func() { digestDepth-- }()
+	if digestDepth > 300 {
+		return h.Int(99)
+	}
 	switch x := v.(type) {
 	case nil:
 		return h.Int(1)
